@@ -272,6 +272,14 @@ package pokerface
 //@    && (g.gs.Status.CurrentEvent == "ReadyRequested" && g.gs.Status.Round == "" ==> ZEROBETS(g))
 //@    && (g.gs.Status.CurrentEvent == "RoundClosed" ==> g.gs.Status.Round != "")
 
+// what the RoundStarted / RoundClosed handlers leave untouched
+//@ pred QUIET(g) = unchanged(PlayerState.Wager) && unchanged(PlayerState.Pot) && unchanged(PlayerState.InitialStackSize)
+//@    && unchanged(PlayerState.DidAction) && unchanged(PlayerState.HoleCards) && unchanged(GameState.Meta)
+//@    && g.gs.Status.CurrentWager == old(g.gs.Status.CurrentWager) && g.gs.Status.PreviousRaiseSize == old(g.gs.Status.PreviousRaiseSize)
+//@    && g.gs.Status.CurrentRoundPot == old(g.gs.Status.CurrentRoundPot) && g.gs.Status.CurrentRaiser == old(g.gs.Status.CurrentRaiser)
+//@    && g.gs.Status.MaxWager == old(g.gs.Status.MaxWager) && g.gs.Status.Round == old(g.gs.Status.Round)
+//@    && g.gs.Status.LastAction == old(g.gs.Status.LastAction) && g.gs.Status.CurrentDeckPosition == old(g.gs.Status.CurrentDeckPosition)
+
 // the state just before the handler of an event that is emitted while all seats are idle
 //@ pred IDLEPRE(g) = ENGINE(g) && TABLE(g) && ALLIDLE(g)
 
@@ -283,10 +291,9 @@ package pokerface
 //@   props C04 C05
 //@   requires ENGINE(g) && DECKOK(g) && TABLE(g) && 0 <= g.gs.Status.CurrentPlayer && OTHERSIDLE(g)
 //@   requires g.gs.Status.CurrentEvent == "RoundStarted" && g.gs.Status.Round != ""
-//@   modifies g.gs.Status.CurrentEvent, g.gs.Status.CurrentPlayer, g.gs.Status.Pots, g.gs.UpdatedAt,
-//@            PlayerState.AllowedActions, PlayerState.Acted, @POTS
-//@   allocs elems(string), elems(Player)
-//@   ensures err == nil && WAITINV(g)
+//@   modifies @CHAIN
+//@   allocs elems(string), elems(Player), settlement.Result
+//@   ensures err == nil && WAITINV(g) && QUIET(g)
 //@   ensures g.gs.Status.CurrentEvent == "RoundStarted" || g.gs.Status.CurrentEvent == "RoundClosed"
 //@   ensures g.gs.Status.CurrentEvent == "RoundStarted" ==> unchanged(PlayerState.Acted)
 //@             && g.gs.Status.CurrentPlayer == ROT(old(g.gs.Status.CurrentPlayer), 1, len(g.gs.Players))
@@ -343,12 +350,7 @@ package pokerface
 //@   ensures event == GameEvent_RoundStarted ==> g.gs.Status.CurrentEvent == "RoundStarted" || g.gs.Status.CurrentEvent == "RoundClosed"
 //@   ensures event == GameEvent_RoundStarted && g.gs.Status.CurrentEvent == "RoundStarted" ==> unchanged(PlayerState.Acted)
 //@             && g.gs.Status.CurrentPlayer == ROT(old(g.gs.Status.CurrentPlayer), 1, len(g.gs.Players))
-//@   ensures event == GameEvent_RoundStarted || event == GameEvent_RoundClosed ==> unchanged(PlayerState.Wager) && unchanged(PlayerState.Pot)
-//@             && unchanged(PlayerState.InitialStackSize) && unchanged(PlayerState.DidAction) && unchanged(PlayerState.HoleCards)
-//@             && g.gs.Status.CurrentWager == old(g.gs.Status.CurrentWager) && g.gs.Status.PreviousRaiseSize == old(g.gs.Status.PreviousRaiseSize)
-//@             && g.gs.Status.CurrentRoundPot == old(g.gs.Status.CurrentRoundPot) && g.gs.Status.CurrentRaiser == old(g.gs.Status.CurrentRaiser)
-//@             && g.gs.Status.MaxWager == old(g.gs.Status.MaxWager) && g.gs.Status.Round == old(g.gs.Status.Round)
-//@             && g.gs.Status.LastAction == old(g.gs.Status.LastAction) && unchanged(GameState.Meta)
+//@   ensures event == GameEvent_RoundStarted || event == GameEvent_RoundClosed ==> QUIET(g)
 //@   ensures event == GameEvent_RoundClosed ==> g.gs.Status.CurrentEvent == "RoundClosed"
 //@   ensures event == GameEvent_Started || event == GameEvent_Initialized || event == GameEvent_ReadyRequested ==> g.gs.Status.CurrentEvent == "ReadyRequested"
 //@   ensures event == GameEvent_AnteRequested ==> g.gs.Status.CurrentEvent == "AnteRequested"
@@ -375,10 +377,9 @@ package pokerface
 //@   props C04 C05 C06
 //@   requires ENGINE(g) && DECKOK(g) && TABLE(g) && 0 <= g.gs.Status.CurrentPlayer && OTHERSIDLE(g)
 //@   requires g.gs.Status.CurrentEvent == "RoundStarted" && g.gs.Status.Round != ""
-//@   modifies g.gs.Status.CurrentEvent, g.gs.Status.CurrentPlayer, g.gs.Status.Pots, g.gs.UpdatedAt,
-//@            PlayerState.AllowedActions, PlayerState.Acted, @POTS
-//@   allocs elems(string), elems(Player)
-//@   ensures err == nil && WAITINV(g)
+//@   modifies @CHAIN
+//@   allocs elems(string), elems(Player), settlement.Result
+//@   ensures err == nil && WAITINV(g) && QUIET(g)
 //@   ensures g.gs.Status.CurrentEvent == "RoundStarted" || g.gs.Status.CurrentEvent == "RoundClosed"
 //@   ensures g.gs.Status.CurrentEvent == "RoundStarted" ==> unchanged(PlayerState.Acted)
 //@             && g.gs.Status.CurrentPlayer == ROT(old(g.gs.Status.CurrentPlayer), 1, len(g.gs.Players))
@@ -415,9 +416,9 @@ package pokerface
 
 //@ modset ACTION = p.state.Acted, p.state.DidAction, p.state.Fold, p.state.Wager, p.state.StackSize, p.state.VPIP,
 //@     PlayerState.Acted, PlayerState.AllowedActions, Action,
-//@     p.game.gs.Status.LastAction, p.game.gs.Status.PreviousRaiseSize, p.game.gs.Status.CurrentRoundPot,
-//@     p.game.gs.Status.MaxWager, p.game.gs.Status.CurrentWager, p.game.gs.Status.CurrentRaiser,
-//@     p.game.gs.Status.CurrentEvent, p.game.gs.Status.CurrentPlayer, p.game.gs.Status.Pots, p.game.gs.UpdatedAt, @POTS
+//@     p.game.gs.Status, p.game.gs.UpdatedAt, p.game.gs.Result, p.game.gs.Meta.Deck, elemsof(p.game.gs.Meta.Deck),
+//@     PlayerState.Pot, PlayerState.Wager, PlayerState.InitialStackSize, PlayerState.DidAction, PlayerState.HoleCards,
+//@     CombinationInfo, @POTS, @SETTLE
 
 // what every accepted action leaves behind
 //@ pred AFTERACTION(g) = WAITINV(g) && (g.gs.Status.CurrentEvent == "RoundStarted" || g.gs.Status.CurrentEvent == "RoundClosed")
@@ -426,7 +427,7 @@ package pokerface
 //@   props C04 C11
 //@   requires WFP(p) && ROUNDINV(p.game)
 //@   modifies @ACTION
-//@   allocs Action, elems(string), elems(Player)
+//@   allocs Action, elems(string), elems(Player), settlement.Result
 //@   ensures [C04] !old(hasStr(p.state.AllowedActions, "pass")) ==> err != nil
 //@   ensures !old(hasStr(p.state.AllowedActions, "pass")) ==> UNCH()
 //@   ensures old(hasStr(p.state.AllowedActions, "pass")) ==> err == nil && AFTERACTION(p.game) && NOCHIPMOVE()
@@ -436,7 +437,7 @@ package pokerface
 //@   props C04 C11
 //@   requires WFP(p) && ROUNDINV(p.game)
 //@   modifies @ACTION
-//@   allocs Action, elems(string), elems(Player)
+//@   allocs Action, elems(string), elems(Player), settlement.Result
 //@   ensures [C04] !old(hasStr(p.state.AllowedActions, "fold")) ==> err == ErrInvalidAction && UNCH()
 //@   ensures old(hasStr(p.state.AllowedActions, "fold")) ==> err == nil && AFTERACTION(p.game) && NOCHIPMOVE() && p.state.Fold
 //@             && p.game.gs.Status.PreviousRaiseSize == old(p.game.gs.Status.PreviousRaiseSize)
@@ -445,7 +446,7 @@ package pokerface
 //@   props C04 C11
 //@   requires WFP(p) && ROUNDINV(p.game)
 //@   modifies @ACTION
-//@   allocs Action, elems(string), elems(Player)
+//@   allocs Action, elems(string), elems(Player), settlement.Result
 //@   ensures [C04] !old(hasStr(p.state.AllowedActions, "check")) ==> err == ErrInvalidAction && UNCH()
 //@   ensures old(hasStr(p.state.AllowedActions, "check")) ==> err == nil && AFTERACTION(p.game) && NOCHIPMOVE()
 //@             && p.game.gs.Status.PreviousRaiseSize == old(p.game.gs.Status.PreviousRaiseSize)
@@ -454,7 +455,7 @@ package pokerface
 //@   props C04 C11 C12 C01
 //@   requires WFP(p) && ROUNDINV(p.game) && p.game.gs.Meta.Blind.BB >= 0
 //@   modifies @ACTION
-//@   allocs Action, elems(string), elems(Player)
+//@   allocs Action, elems(string), elems(Player), settlement.Result
 //@   ensures [C04] !old(hasStr(p.state.AllowedActions, "call")) ==> err == ErrInvalidAction && UNCH()
 //@   ensures old(hasStr(p.state.AllowedActions, "call")) ==> err == nil && AFTERACTION(p.game)
 //@   ensures [C11] old(hasStr(p.state.AllowedActions, "call")) ==> p.state.Wager == p.game.gs.Status.CurrentWager
@@ -465,7 +466,7 @@ package pokerface
 //@   props C04 C11 C12 C01
 //@   requires WFP(p) && ROUNDINV(p.game)
 //@   modifies @ACTION
-//@   allocs Action, elems(string), elems(Player)
+//@   allocs Action, elems(string), elems(Player), settlement.Result
 //@   ensures [C04] !old(hasStr(p.state.AllowedActions, "allin")) ==> err == ErrInvalidAction && UNCH()
 //@   ensures old(hasStr(p.state.AllowedActions, "allin")) ==> err == nil && AFTERACTION(p.game)
 //@   ensures [C11] old(hasStr(p.state.AllowedActions, "allin")) ==> p.state.Wager == old(p.state.InitialStackSize) && p.state.StackSize == 0
@@ -476,7 +477,7 @@ package pokerface
 //@   props C04 C11 C12 C01
 //@   requires WFP(p) && ROUNDINV(p.game)
 //@   modifies @ACTION
-//@   allocs Action, elems(string), elems(Player)
+//@   allocs Action, elems(string), elems(Player), settlement.Result
 //@   ensures [C04] !old(hasStr(p.state.AllowedActions, "bet")) ==> err == ErrInvalidAction && UNCH()
 //@   ensures [C12] old(hasStr(p.state.AllowedActions, "bet")) ==> err == nil && AFTERACTION(p.game)
 //@   ensures [C11] old(hasStr(p.state.AllowedActions, "bet")) && 0 < chips && chips < old(p.state.StackSize)
@@ -487,7 +488,7 @@ package pokerface
 //@   props C04 C12 C01
 //@   requires WFP(p) && ROUNDINV(p.game) && p.game.gs.Meta.Blind.BB >= 0
 //@   modifies @ACTION
-//@   allocs Action, elems(string), elems(Player)
+//@   allocs Action, elems(string), elems(Player), settlement.Result
 //@   ensures [C04] !old(hasStr(p.state.AllowedActions, "raise")) ==> err == ErrInvalidAction && UNCH()
 //@   ensures [C12] old(hasStr(p.state.AllowedActions, "raise")) && (chipLevel == 0 || chipLevel < old(p.game.gs.Status.CurrentWager))
 //@             ==> err == ErrIllegalRaise && UNCH()
@@ -511,7 +512,7 @@ package pokerface
 //@   props C04 C12
 //@   requires WFP(p) && ROUNDINV(p.game)
 //@   modifies @ACTION
-//@   allocs Action, elems(string), elems(Player)
+//@   allocs Action, elems(string), elems(Player), settlement.Result
 //@   ensures [C04] err == ErrInvalidAction && UNCH()
 
 // ---------------------------------------------------------------------------
